@@ -590,7 +590,10 @@ class PrenexNormalizer(DagWalker):
         quantifiers, matrix = self.walk(formula)
         res = matrix
         for Q, qvars in quantifiers:
-            res = Q(qvars, res)
+            # The variables of a block are a set: they are listed in
+            # an order that does not depend on the history of the
+            # environment
+            res = Q(sorted(qvars, key=lambda v: v.symbol_name()), res)
         return res
 
     def _invert_quantifier(self, Q: Callable) -> Callable:
